@@ -51,8 +51,10 @@ class C03(DevProp):
         cases = []
         codes = [30, 31, 32, 33]
         SHIFT = [0, 1, -1, 2]
+        CHOFF = [0, 15, 9, 4]
+        TARGET = 1      # the channel index on which the keys of "channel-distinct" meet: base = (TARGET - offset) mod 16 = 1, 2, 8, 13
         for cmode in devgen.CMODES:
-            for variant in ("direct", "zero", "offset", "transpose", "transpose-distinct"):
+            for variant in ("direct", "zero", "offset", "transpose", "transpose-distinct", "channel-distinct"):
                 midi = []
                 for i, c in enumerate(codes):
                     if variant == "direct":
@@ -63,11 +65,15 @@ class C03(DevProp):
                         midi.append({"sub": "", "code": c, "note": 60, "off": 16 * 0 + (3 if i % 2 else 3)})
                     elif variant == "transpose":
                         midi.append({"sub": "", "code": c, "note": 60 - 12 * (i % 2), "off": 0})
+                    elif variant == "channel-distinct":   # same note, distinct channel offsets: the keys meet on one channel only after
+                        # the base channel was moved between the presses, some through the 15 -> 0 wrap of base + offset and some without
+                        midi.append({"sub": "", "code": c, "note": 60, "off": CHOFF[i]})
                     else:   # no two keys share a note statically: collisions exist only through transposition between presses
                         midi.append({"sub": "", "code": c, "note": 60 - 12 * SHIFT[i], "off": 0})
                 midi.append({"sub": "", "code": 40, "note": 61, "off": 0})
                 cfg = {"mappings": [{"name": "M0", "midi": midi, "analog": [], "dz": [], "defdz": [], "subs": []}],
-                       "actions": [{"code": 59, "action": "octave_up"}, {"code": 60, "action": "octave_down"}],
+                       "actions": [{"code": 59, "action": "octave_up"}, {"code": 60, "action": "octave_down"},
+                                   {"code": 61, "action": "channel_up"}, {"code": 62, "action": "channel_down"}],
                        "exitseq": [], "cmode": cmode, "octave": 0, "semitone": 0, "channel": 1, "mapping": 0, "velocity": 64}
                 for n in (2, 3, 4):
                     eps = episodes(n)
@@ -76,7 +82,16 @@ class C03(DevProp):
                     for ep in eps:
                         ev = []
                         octave = 0
+                        base = 0
                         for (i, v) in ep:
+                            if variant == "channel-distinct" and v == 1:
+                                want = (TARGET - CHOFF[i]) % 16
+                                while base < want:
+                                    ev += [k(61, 1), k(61, 0)]
+                                    base += 1
+                                while base > want:
+                                    ev += [k(62, 1), k(62, 0)]
+                                    base -= 1
                             if variant.startswith("transpose") and v == 1:
                                 want = i % 2 if variant == "transpose" else SHIFT[i]   # key i sounds 60 at octave `want`
                                 while octave < want:
